@@ -52,6 +52,12 @@ CHECKS = {
     "C12": dict(cat="proof", tech="Coq theorems (causal cone, once-only input evaluation, non-interference) for every program of the language + correspondence k_calllog (call logs of lazily defined Hamiltonians)",
                 text="C12_causal, C12_once, C12_noninterference for every program whose input names contain no '@'; C12_definition (only zeroth-order terms evaluated at definition time) is decided by the harness.",
                 note=BASE_NOTE),
+    "C14": dict(cat="proof", tech="Coq theorems on hand models of the container normalisation and of operator_to_BlockSeries tied by correspondence k_formats (vm_compute) + pairwise exact comparison of all presentations on the implementation",
+                text="9 theorems: all container formats denoting the same family normalise to the same series, list orders, symbols sorted by name, Taylor coefficients for polynomial symbolic dependence (_partial: non-polynomial analytic dependence delegated to sympy), nested blocks, projection L_i^dagger A R_j (entry formula; sub-matrices for index vectors), Hermitian fill. The eigenbasis-rotation clause is the LAHom instance C15_degenerate_rotation / transport theorems (Alg/Equivariance.v).",
+                note=BASE_NOTE + "Dense / sparse / symbolic values are one model: their equivalence is the correspondence of all three branches with it."),
+    "C20": dict(cat="proof", tech="Coq theorems on a hand model of the validation order of block_diagonalize (definition time and lazily executed tests) tied by correspondence k_validate (malformed-input stream, exception class and stage) + oracle on the implementation",
+                text="12 theorems: each listed ill-posed class, embedded in any otherwise arbitrary call record, is rejected with a listed exception no later than the first evaluation needing the quantity; well-posed calls are accepted; no division by a quantity within tolerance on accepted numeric input (with C16_diagonal_nodiv). Class definitions follow the code (symbolic blocks whose vanishing sympy cannot decide are accepted with a warning; Hermiticity is checked only for sympy-expression input). One residual corner (custom solver + single block + bare all-False mask raises UnboundLocalError) is kept visible in the statements.",
+                note=BASE_NOTE + "numpy.isclose/allclose and sympy is_zero/is_hermitian/Eq are given facts of the abstract call record."),
     "C16": dict(cat="proof", tech="Coq theorems on hand models of the four solvers (stdlib / MathComp) tied by correspondence k_sylvdiag, k_greens, k_group, k_kpm, k_scalar",
                 text="C16_diagonal (+ antiherm, nodiv), C16_direct (+ pivots, regular, both orientations), C16_group, C16_kpm_contract (+ terminates, bound, small max_moments), C16_scalar: each built-in solver returns a solution of its equation where it is defined; external numerics modelled by contracts.",
                 note=BASE_NOTE + "scipy factorized/MUMPS, pivoted QR, eigsh, KDTree are contracts; invertibility of the pivot minors is a hypothesis checked exactly by the harness on every case; KPM convergence in floating point is outside the theorems."),
